@@ -23,6 +23,17 @@ CtxOK(L, c) ==
      THEN \E r \in Unreciprocated(L) : r[3] = x[1] /\ Reverse(r[2]) = x[2] /\ r[1] = x[3]
      ELSE TRUE
 BadCtx(L, t) == {c[1] : c \in {c \in Rng(t[3]) : ~CtxOK(L, c)}}
+\* python -m wn validate: exit status 0 iff no selected check lists anything; the
+\* report file names exactly the checks that list something
+\* cli rows: <<select, exit status, <<codes in the report file>>>>
+CliOK(L, t) ==
+  LET sel == Selected(Rng(t[1]))
+      must == {c \in sel : Lo(L, c) # {}}
+      may == {c \in sel : Hi(L, c) # {}} IN
+  /\ t[2] \in {0, 1}
+  /\ must # {} => t[2] = 1
+  /\ may = {} => t[2] = 0
+  /\ t[2] = 1 => (must \subseteq Rng(t[3]) /\ Rng(t[3]) \subseteq may)
 \* E204 / E401 reported  =>  add() rejects the lexicon
 AddOK(L, r) == (E204(L) # {} \/ E401(L) # {}) => r.add # "ok"
 \* known deviation (fixed): KeyError in W501 when a hypernym target is missing
@@ -36,6 +47,7 @@ Fails(r) ==
     \cup {<<"ExactItems", BadCodes(L, t)>> : t \in {t \in Rng(r.runs) : t[2] = "ok" /\ BadCodes(L, t) # {}}}
     \cup {<<"Context", BadCtx(L, t)>> : t \in {t \in Rng(r.runs) : t[2] = "ok" /\ BadCtx(L, t) # {}}}
     \cup (IF AddOK(L, r) THEN {} ELSE {<<"ErrorsMakeAddFail", r.add>>})
+    \cup {<<"CommandLineExitStatus", t[1]>> : t \in {t \in Rng(r.cli) : ~CliOK(L, t)}}
 Devs(r) ==
   IF "timeout" \in DOMAIN r THEN {} ELSE
   IF \E t \in Rng(r.runs) : DevW501KeyError(r.lex, t) THEN {"DevW501KeyError"} ELSE {}
